@@ -191,6 +191,10 @@ class CustomLoader(plumpy.DefaultObjectLoader):
     def __init__(self, full=False):
         self.full = full
 
+    def __len__(self):
+        # a registry-style loader with nothing registered (yet): FALSY, like an empty container - and still the configured loader
+        return 0
+
     def load_object(self, identifier):
         CustomLoader.calls.append(identifier)
         if self.full:
